@@ -304,10 +304,10 @@ func Requests(kind kit.Kind, rng *rand.Rand, ids *IDGen, level int) []Req {
 	add("response-never-sent|result-wrong-type", "", []field{{"jsonrpc", `"2.0"`}, {"id", "424243"}, {"result", `5`}}, "", Expect{Class: "accepted"}, false)
 	// 6. raw bodies that are not JSON-RPC objects
 	raws := []struct{ name, body string }{
-		{"not-json", "this is not json"}, {"truncated", `{"jsonrpc":"2.0","id":1,"method":"pi`}, {"json-array", `[{"jsonrpc":"2.0","id":1,"method":"ping"}]`},
+		{"not-json", "this is not json"}, {"truncated", `{"jsonrpc":"2.0","id":987004,"method":"pi`}, {"json-array", `[{"jsonrpc":"2.0","id":987005,"method":"ping"}]`},
 		{"json-number", "42"}, {"json-string", `"ping"`}, {"json-null", "null"}, {"json-true", "true"}, {"empty-array", "[]"},
-		{"invalid-utf8", "{\"jsonrpc\":\"2.0\",\"id\":1,\"method\":\"pi\xff\xfeng\"}"}, {"nul-byte", "{\"jsonrpc\":\"2.0\",\x00\"id\":1}"},
-		{"trailing-garbage", `{"jsonrpc":"2.0","id":991,"method":"ping"} trailing`},
+		{"invalid-utf8", "{\"jsonrpc\":\"2.0\",\"id\":987001,\"method\":\"pi\xff\xfeng\"}"}, {"nul-byte", "{\"jsonrpc\":\"2.0\",\x00\"id\":1}"},
+		{"trailing-garbage", `{"jsonrpc":"2.0","id":987002,"method":"ping"} trailing`},
 	}
 	for _, rw := range raws {
 		exp := Expect{Class: "refuse", Codes: []int{-32700, -32600}}
@@ -318,7 +318,7 @@ func Requests(kind kit.Kind, rng *rand.Rand, ids *IDGen, level int) []Req {
 	}
 	if level > 0 {
 		// truncations of a valid message at every offset and seeded bit flips
-		base := build(envelope("77001", "tools/call", `{"name":"echo","arguments":{"nonce":"t","payload":"pp"}}`))
+		base := build(envelope("987003", "tools/call", `{"name":"echo","arguments":{"nonce":"t","payload":"pp"}}`))
 		for cut := 1; cut < len(base); cut++ {
 			out = append(out, Req{Label: "raw|truncation", Body: append([]byte{}, base[:cut]...), Expect: Expect{Class: "refuse", Codes: []int{-32700, -32600}}})
 		}
